@@ -201,3 +201,34 @@ func parserView(data []byte) (e vx.Expect, err error) {
 	}
 	return e, nil
 }
+
+// palettedNRGBA builds a picture with n colours (opaque and semi-transparent entries).
+func palettedNRGBA(rng *rand.Rand, w, h, n int) *image.NRGBA {
+	pal := make([]color.NRGBA, n)
+	for i := range pal {
+		pal[i] = color.NRGBA{uint8(rng.Intn(256)), uint8(rng.Intn(256)), uint8(rng.Intn(256)), 255}
+		if i%3 == 2 {
+			pal[i].A = uint8(rng.Intn(256))
+		}
+	}
+	img := image.NewNRGBA(image.Rect(0, 0, w, h))
+	for y := 0; y < h; y++ {
+		for x := 0; x < w; x++ {
+			img.SetNRGBA(x, y, pal[rng.Intn(n)])
+		}
+	}
+	return img
+}
+
+// gradientAlpha builds a picture with a smooth alpha ramp.
+func gradientAlpha(rng *rand.Rand, w, h int) *image.NRGBA {
+	img := noiseNRGBA(rng, w, h, 0)
+	for y := 0; y < h; y++ {
+		for x := 0; x < w; x++ {
+			c := img.NRGBAAt(x, y)
+			c.A = uint8((x*255/(w) + y*3) % 256)
+			img.SetNRGBA(x, y, c)
+		}
+	}
+	return img
+}
